@@ -1,13 +1,14 @@
-"""C13 finding (not fixed): BufferedWriter with buffer_type=TableType.Dicts keeps the caller's dict objects.
+"""F28 (C13, fixed in /repo 6413561): BufferedWriter with buffer_type=TableType.Dicts kept the caller's dict objects.
 
-append_data(row) stores a reference (`self.buffer += data`); the row is turned into text only when the buffer is flushed.
-A caller that fills ONE dict per row and appends it (the usual way to avoid allocating a dict per row) therefore finds the
+Before the repair append_data(row) stored a reference (`self.buffer += data`; now a copy of every dict); the row is turned
+into text only when the buffer is flushed.  A caller that fills ONE dict per row and appends it (the usual way to avoid
+allocating a dict per row) therefore found the
 LAST values of every flush window in the file: 5 appended rows (0,v0) .. (4,v4) with buffer_size=3 read back as
 (2,v2) (2,v2) (2,v2) (4,v4) (4,v4).  The DataFrame buffer (data.copy(deep=True) / pd.concat) and the Records buffer (np.append)
 copy what they are given and are not affected; an unbuffered writer is not affected either.
 
-Exit status 1 while the defect is present, 0 when the file holds the rows as they were when they were appended.
-Run: PYTHONPATH=/repo /venv/bin/python repo_fixes/C13-finding-dicts-buffer-aliasing.py"""
+Exit status 1 when the defect is present (6413561 reverted), 0 when the file holds the rows as they were when they were appended.
+Run: PYTHONPATH=/repo /venv/bin/python repo_fixes/F28-repro-dicts-buffer-aliasing.py"""
 import sys
 import tempfile
 import warnings
